@@ -21,7 +21,7 @@ from vlib.worker import REPO, Worker, guarded, short
 RULE = ('histories of 2-5 interpreter runs over one package source tree, each run under a hook configuration from '
         '{off, default, claw_is_pep526=False, each decorator placement for functions and for types, custom violation '
         'exception, custom violation warning, strategies, tower, and the full product of the three AST-shaping options '
-        'with a fourth, non-shaping one (none / is_pep557_fields / strategy O0)}, consecutive runs often one option '
+        'with a fourth, non-shaping one (none / is_pep557_fields / strategy O0 / is_pep484_tower / violation_type=warning / hint_overrides)}, consecutive runs often one option '
         'apart or of the same AST shape, with optional source edits between runs; after every run the behaviour '
         'report of the package self-test must equal the report of the same (configuration, source) on an empty cache, '
         'and every .pyc written must be "transformed iff marked"; plus single runs in which 2-8 threads import hooked '
@@ -54,7 +54,9 @@ AST_SHAPE = {'off': 'off', 'default': 'd', 'no526': 'no526', 'func-first': 'ff',
 for _p in (True, False):
     for _f in ('FIRST', 'LAST', 'LAST_BEFORE_DECOR_HOSTILE'):
         for _t in ('FIRST', 'LAST', 'LAST_BEFORE_DECOR_HOSTILE'):
-            for _x, _xsrc in (('x0', ''), ('x557', ', is_pep557_fields=True'), ('xO0', ', strategy=BeartypeStrategy.O0')):
+            for _x, _xsrc in (('x0', ''), ('x557', ', is_pep557_fields=True'), ('xO0', ', strategy=BeartypeStrategy.O0'),
+                              ('xtow', ', is_pep484_tower=True'), ('xwarn', ', violation_type=MyWarning'),
+                              ('xover', ', hint_overrides=BeartypeHintOverrides({float: float | int})')):
                 _n = f'p{int(_p)}-f{_f[0] + str(len(_f))}-t{_t[0] + str(len(_t))}-{_x}'
                 CONFIGS[_n] = (f"dict(claw_is_pep526={_p}, claw_decor_place_func=BeartypeDecorPlace.{_f}, "
                                f"claw_decor_place_type=BeartypeDecorPlace.{_t}{_xsrc})")
@@ -99,6 +101,15 @@ with warnings.catch_warnings(record=True) as _w:
         RESULT['method'] = 'passed'
     except Exception as e:
         RESULT['method'] = 'raised:' + type(e).__name__
+def g(a: float) -> float:
+    return a
+with warnings.catch_warnings(record=True) as _w:
+    warnings.simplefilter('always')
+    try:
+        g(1)       # accepted under the numeric tower or an override of float only
+        RESULT['int-for-float'] = 'passed' + ('+warned:' + _w[-1].category.__name__ if _w else '')
+    except Exception as e:
+        RESULT['int-for-float'] = 'raised:' + type(e).__name__
 import dataclasses
 @cdeco2
 @dataclasses.dataclass
@@ -130,7 +141,7 @@ class MyViolation(Exception): pass
 class MyWarning(UserWarning): pass
 conf_src = {conf!r}
 if conf_src is not None:
-    from beartype import BeartypeConf, BeartypeDecorPlace, BeartypeStrategy
+    from beartype import BeartypeConf, BeartypeDecorPlace, BeartypeHintOverrides, BeartypeStrategy
     from beartype.claw import beartype_package
     beartype_package({pkg!r}, conf=BeartypeConf(**eval(conf_src)))
 import importlib
@@ -375,7 +386,7 @@ def main():
                 if confs[i - 1].startswith('p') and '-f' in confs[i - 1] and rng.random() < .7:
                     parts = confs[i - 1].split('-')
                     j = rng.choice((0, 1, 2, 3, 3))
-                    alts = [('p0', 'p1'), ('fF5', 'fL4', 'fL25'), ('tF5', 'tL4', 'tL25'), ('x0', 'x557', 'xO0')][j]
+                    alts = [('p0', 'p1'), ('fF5', 'fL4', 'fL25'), ('tF5', 'tL4', 'tL25'), ('x0', 'x557', 'xO0', 'xtow', 'xwarn', 'xover')][j]
                     parts[j] = rng.choice([a for a in alts if a != parts[j]])
                     confs[i] = '-'.join(parts)
             edits = [rng.random() < .25 for _ in range(n)]
@@ -437,10 +448,12 @@ def main():
                     pass
             W.count('stray_pyc_removed_from_repo', len(stray))
 
-    W.need('interpreter_runs', 150)
-    W.need('history_runs', 80)
-    W.need('thread_runs', 10)
-    W.need('pyc_files_decoded', 100)
+    # (an ordinary quick run makes ~850 interpreter runs; on a machine loaded 3x over its cores it made 144 - the
+    # minimum only has to tell a working monitor from a detached one)
+    W.need('interpreter_runs', 60)
+    W.need('history_runs', 30)
+    W.need('thread_runs', 3)
+    W.need('pyc_files_decoded', 40)
     W.need('cold_reference_runs', 5)
     W.finish()
 
